@@ -21,6 +21,10 @@ string of n characters of a fixed pattern, ``{"i": n}`` an n-digit int, scalars 
   S  every scalar of a list of special values (floats needing 17 digits, huge ints, signed zeros, strings
      that look like syntax) alone, as the only list element, as a dict value and as a dict key
   B4 very long flat containers (one-line form 450..1300 characters): must come out wrapped
+  H  histories on ONE printer object (E2): every sequence of <= 3 renderings, each colored or no_color, of an
+     object of a small pool holding every constant / leaf type, on a fresh PrettyPrinter (JSON mode, Python
+     mode) and on the module-level ``ak.ppobj.pp`` after ``importlib.reload(ak.ppobj)``; every rendering of
+     every history must satisfy the oracle (the no-color output is ``str(result)``: nothing may need stripping)
 
 Oracle (from the statement): the no-color text and the joined line iteration (lines rendered as they are
 yielded, and the kept line objects rendered after the iteration has finished) all parse (json.loads
@@ -31,9 +35,11 @@ long on one line is not "wrapped").
 """
 
 import ast
+import importlib
 import itertools
 import json
 
+import ak.ppobj
 from ak.ppobj import PrettyPrinter
 
 ID = "C11"
@@ -50,7 +56,7 @@ LEVEL_NOTE = ("Small-scope: containers with more than one sweep element, strings
               "alphabet, nesting deeper than 3 around a threshold container are not covered. Trusted: json.loads, "
               "ast.parse/literal_eval, the spec builder in this file. Layout (indentation, where exactly a line "
               "breaks) is deliberately not part of the oracle: the statement does not fix it.")
-RULE = ("case = (object spec, mode); the object is rendered by a fresh PrettyPrinter as a whole (plain_text of the "
+RULE = ("case = (object spec, mode), or a history of <= 3 (colored | no_color, object) renderings on one printer object;  the object is rendered by a fresh PrettyPrinter as a whole (plain_text of the "
         "result) and through the line iterator (each line rendered when yielded, and again after the iterator is "
         "exhausted - a consumer may keep the lines); every rendering that differs from the whole text is parsed "
         "and compared as well. Distinct by construction: distinct specs or modes. "
@@ -60,6 +66,8 @@ ASSUMPTIONS = [
     "strings contain no quote, apostrophe, backslash or control character (property domain); printable ASCII plus 'é'",
     "dict keys are str (JSON mode) or str/int (Python mode); bool/None/float keys and keys equal across types are outside the domain",
     "floats are finite",
+    "the no-color output is str(result) / str(line) (equal to plain_text() for a no-color palette); a colored "
+    "rendering inside a history is judged on its visible text (plain_text()) only",
     "tuples and other non-JSON containers are outside the domain",
     "'sorted key order' is demanded within each key type (ints numerically, strings by code point); the relative "
     "placement of ints and strings is not demanded",
@@ -73,6 +81,9 @@ REQUIRED_FEATURES = [
     "thr200:199", "thr200:200", "thr200:201", "thr150:149", "thr150:150", "thr150:151",
     "sweep:list-element", "sweep:dict-value", "sweep:dict-key", "sweep:count",
     "elem:longer-than-line", "long:must-wrap", "scalar:special",
+    "printer:fresh-instance", "printer:module-level-pp", "printer-reuse:colored-then-no-color",
+    "printer-reuse:same-constant-colored-then-no-color", "printer-reuse:no-color-then-colored",
+    "printer-reuse:same-kind-twice",
 ]
 # "out:..." features (one-line / multi-line output, list printed on several lines, line holding several
 # elements) are observed on the implementation's output; they are counted in the evidence but not required,
@@ -368,33 +379,144 @@ def judge(obj, mode, text, want=None):
     return None
 
 
+def observe(printer, obj, colored):
+    """One use of a printer object: -> list of (label, text) renderings to be judged, the first is the whole text.
+
+    no_color: the output is ``str(result)`` (and ``str(line)`` for the line iteration) - it must not need any
+    stripping; ``plain_text()`` is judged as well when it differs.  colored: the visible text (``plain_text()``)."""
+    kw = {} if colored else {"no_color": True}
+    res = printer(obj, **kw)
+    plain = res.plain_text()
+    out = [("", plain if colored else str(res))]
+    if not colored and plain != out[0][1]:
+        out.append(("plain_text:", plain))
+    kept, lines = [], []
+    for ln in printer(obj, **kw):                          # line iteration: rendered when yielded ...
+        lines.append(ln.plain_text() if colored else str(ln))
+        kept.append(ln)
+    later = [(ln.plain_text() if colored else str(ln)) for ln in kept]   # ... and the kept line objects afterwards
+    joined = "\n".join(lines)
+    if joined != out[0][1]:
+        out.append(("by-line:", joined))
+    if later != lines:
+        out.append(("kept-lines:", "\n".join(later)))
+    return out
+
+
 def check_case(spec, mode, acc):
     """Run one case; returns (violation-or-None, text, nlines)."""
     obj = build(spec)
     acc.trans(2)
     try:
-        text = _printer(mode)(obj, no_color=True).plain_text()
-        kept, lines = [], []
-        for ln in _printer(mode)(obj, no_color=True):     # line iteration: rendered at once ...
-            lines.append(ln.plain_text())
-            kept.append(ln)
-        later = [ln.plain_text() for ln in kept]          # ... and the same line objects rendered afterwards
+        renderings = observe(_printer(mode), obj, False)
     except Exception as e:  # noqa
         return (("raises:" + type(e).__name__ + ":" + shape_class(obj),
                  f"printing raised {type(e).__name__}: {e}", repr(e), "text"), None, 0)
     want = canon(obj)
-    v = judge(obj, mode, text, want)
-    if v is None:
-        joined = "\n".join(lines)
-        if joined != text:
-            v2 = judge(obj, mode, joined, want)
-            if v2 is not None:
-                v = ("by-line:" + v2[0],) + v2[1:]
-    if v is None and later != lines:
-        v2 = judge(obj, mode, "\n".join(later), want)
+    v = None
+    for label, text in renderings:
+        v2 = judge(obj, mode, text, want)
         if v2 is not None:
-            v = ("kept-lines:" + v2[0],) + v2[1:]
+            v = (label + v2[0],) + v2[1:]
+            break
+    text = renderings[0][1]
     return v, text, text.count("\n") + 1
+
+
+# ------------------------------------------------------------------------------------------ printer histories (E2)
+# One printer object is used several times: colored and no-color renderings of objects from a small pool, in
+# every order.  The state is the history; every history starts from a fresh printer object - either a new
+# PrettyPrinter instance or the module-level ``ak.ppobj.pp`` after ``importlib.reload(ak.ppobj)``.
+H_POOL = [
+    True,
+    [None, 1],
+    {"D": [["k", False], ["s", "ab"]]},
+    [True, False, None, 2.5, "x", [], {"D": []}],
+    {"D": [["n", -3], ["a", [None, {"D": [["b", True]]}]]]},
+    [None, True, False, 7] * 15,
+]
+H_PRINTERS = ["json", "py", "pp"]          # fresh PrettyPrinter(fmt_json=True/False), module-level pp (Python mode)
+H_STEPS = [(c, i) for i in range(len(H_POOL)) for c in (1, 0)]    # (colored, pool index)
+H_DEPTH = {"quick": 3, "thorough": 3}
+
+
+def _history_printer(kind):
+    if kind == "pp":
+        importlib.reload(ak.ppobj)         # pristine module-level state, pristine ``pp``
+        return ak.ppobj.pp
+    return ak.ppobj.PrettyPrinter(fmt_json=(kind == "json"))
+
+
+def _constants_of(v, out):
+    if isinstance(v, dict):
+        for x in v.values():
+            _constants_of(x, out)
+    elif isinstance(v, list):
+        for x in v:
+            _constants_of(x, out)
+    elif v is None or v is True or v is False:
+        out.add(v)
+    return out
+
+
+def check_history(kind, steps, acc):
+    """steps: [{"colored": 0/1, "spec": spec}, ...] -> (violation or None, index of the failing step, features)."""
+    mode = "json" if kind == "json" else "py"
+    feats = {"printer:module-level-pp" if kind == "pp" else "printer:fresh-instance"}
+    try:
+        printer = _history_printer(kind)
+    except Exception as e:  # noqa
+        return ("history:raises:" + type(e).__name__, f"creating the printer raised {e!r}", repr(e), None), 0, feats
+    seen_consts = {0: set(), 1: set()}
+    for i, st in enumerate(steps):
+        obj = build(st["spec"])
+        colored = bool(st["colored"])
+        before = [bool(x["colored"]) for x in steps[:i]]
+        consts = _constants_of(obj, set())
+        if not colored and True in before:
+            feats.add("printer-reuse:colored-then-no-color")
+            if consts & seen_consts[1]:
+                feats.add("printer-reuse:same-constant-colored-then-no-color")
+        if colored and False in before:
+            feats.add("printer-reuse:no-color-then-colored")
+        if before and before[-1] == colored:
+            feats.add("printer-reuse:same-kind-twice")
+        seen_consts[1 if colored else 0] |= consts
+        where = ("first" if not before else ("after-colored" if True in before else "after-no-color")) + \
+            ("-colored" if colored else "-no-color")
+        acc.trans(2)
+        try:
+            renderings = observe(printer, obj, colored)
+        except Exception as e:  # noqa
+            return (f"printer-reuse:{where}:raises:{type(e).__name__}",
+                    f"step {i}: printing raised {type(e).__name__}: {e}", repr(e), "text"), i, feats
+        want = canon(obj)
+        for label, text in renderings:
+            v = judge(obj, mode, text, want)
+            if v is not None:
+                return (f"printer-reuse:{where}:{label}{v[0]}", f"step {i} of a history on one printer object: {v[1]}",
+                        v[2], v[3]), i, feats
+    return None, None, feats
+
+
+def _run_H(shard, tier, acc):
+    _, kind, first = shard
+    n = 0
+    for depth in range(1, H_DEPTH[tier] + 1):
+        for rest in itertools.product(range(len(H_STEPS)), repeat=depth - 1):
+            seq = (first,) + rest
+            steps = [{"colored": H_STEPS[j][0], "spec": H_POOL[H_STEPS[j][1]]} for j in seq]
+            case = {"mode": "json" if kind == "json" else "py", "history": {"printer": kind, "steps": steps}}
+            v, _, feats = check_history(kind, steps, acc)
+            kinds = "".join("C" if x["colored"] else "N" for x in steps)
+            acc.case(nontrivial=len(steps) > 1, features=sorted(feats),
+                     outcome=("ok:history:" + kinds) if v is None else v[0], states=len(steps), traces=len(steps))
+            if n % 211 == 0:
+                acc.sample(case)
+            n += 1
+            _report(acc, v, case)
+        if acc.expired():
+            return
 
 
 def _report(acc, v, case):
@@ -449,6 +571,9 @@ def bounds(tier):
         "B2": {"max_entries": p["Kdict"], "value_alphabet": p["Edict"], "sweep": ["value", "key"]},
         "B3": {"patterns": COUNT_PATTERNS, "copies": [1, p["count_max"]]},
         "B4": LONG_CASES, "S": SCALARS,
+        "H": {"printers": ["fresh PrettyPrinter(fmt_json=True)", "fresh PrettyPrinter()", "ak.ppobj.pp after reload"],
+              "steps": "colored / no_color rendering of one of %d pool objects" % len(H_POOL),
+              "max_history": H_DEPTH[tier], "pool": H_POOL[:-1] + ["[None, True, False, 7] * 15"]},
         "contexts(offset=2*len)": ["".join(c) or "top" for c in p["ctx"]],
         "modes": ["json", "python"],
     }
@@ -559,6 +684,9 @@ def shards(tier):
         sh.append(("B3", c))
     sh.append(("B4",))
     sh.append(("S",))
+    for kind in H_PRINTERS:
+        for first in range(len(H_STEPS)):
+            sh.append(("H", kind, first))
     return sh
 
 
@@ -820,10 +948,17 @@ def run_shard(shard, tier, seed, acc):
         return _run_B4(p, acc)
     if fam == "S":
         return _run_S(p, acc)
+    if fam == "H":
+        return _run_H(shard, tier, acc)
     raise ValueError(shard)
 
 
 def replay(case, acc):
+    if "history" in case:
+        v, _, _ = check_history(case["history"]["printer"], case["history"]["steps"], acc)
+        _report(acc, v, case)
+        acc.case()
+        return
     v, _, _ = check_case(case["spec"], case["mode"], acc)
     _report(acc, v, case)
     acc.case()
